@@ -6,7 +6,7 @@ import ast
 import copy
 
 from .. import guards, util
-from ..core import FuncTypes, dotted, norm, walk_no_nested
+from ..core import FuncTypes, always_leaves, dotted, norm, walk_no_nested
 from ..report import rule
 from .fe_state import frontend_classes
 
@@ -208,7 +208,14 @@ def c11_satevidence(R):
             par = node._parent
             if isinstance(par, ast.Try) and blk is par.orelse:
                 before = list(par.body) + before  # `else:` of a try runs after the body completed normally
-            for prev in reversed(before):
+            # a preceding `try` whose handlers all leave: falling out of it means its body completed normally
+            flat = []
+            for prev in before:
+                if isinstance(prev, ast.Try) and not prev.finalbody and all(always_leaves(h.body) for h in prev.handlers):
+                    flat += list(prev.body) + list(prev.orelse)
+                else:
+                    flat.append(prev)
+            for prev in reversed(flat):
                 if isinstance(prev, ast.Assign) and isinstance(prev.value, ast.Call):
                     mname = util.is_super_call(prev.value) or (
                         prev.value.func.attr if isinstance(prev.value.func, ast.Attribute) else None
